@@ -490,3 +490,35 @@ def check(ctx: Ctx) -> None:
         snd = [c for c in repo.calls_in(ge) if callee_attr(c) == "_send"]
         if len(snd) != 1 or repo.fold_in(snd[0].args[0], ge) != consts["GATEWAY_TERMINATE"] or "close_write" not in names:
             ob.violation(ge, ge.node, "Gateway.exit does not send GATEWAY_TERMINATE followed by close_write")
+
+    # "every sub process it started is gone": terminate() only knows the members of the group.  A gateway whose process exists must be
+    # registered before anything else in makegateway can fail (the remote chdir/nice/env step can: ValueError, RemoteError).
+    with ctx.obligation("C05.f", "started-gateway-registered-first") as ob:
+        fm = repo.func("multi.Group.makegateway")
+        cfgm = build_cfg(repo, fm, Oracle(repo, fm, precise=True))
+        boots = cfg_nodes_with_call(cfgm, lambda c: callee_attr(c) == "bootstrap")
+        regs = cfg_nodes_with_call(cfgm, lambda c: callee_attr(c) == "_register" or (callee_attr(c) == "append" and "_gateways" in unparse(c.func)))
+        ob.require(len(boots) >= 2 and len(regs) >= 1, f"makegateway: bootstrap sites {len(boots)} (floor 2) / registration {len(regs)} (floor 1)")
+        regids = {r.id for r in regs}
+        for b in boots:
+            # everything that can run after the process exists and before the registration: must not be able to fail or leave
+            seen_, work, bad = set(), [m for (m, lab) in cfgm.succ[b.id] if not str(lab).startswith("exc")], None
+            while work and bad is None:
+                nid = work.pop()
+                if nid in seen_ or nid in regids:
+                    continue
+                seen_.add(nid)
+                node = cfgm.nodes[nid]
+                if nid in (cfgm.exit.id, cfgm.raise_exit.id) or isinstance(node.ast, (ast.Return, ast.Raise)):
+                    bad = (node, "leaves")
+                    break
+                own = node.ast.test if isinstance(node.ast, (ast.If, ast.While)) else node.ast
+                if own is not None and any(isinstance(x, (ast.Call, ast.Subscript, ast.Await)) for x in ast.walk(own)):
+                    bad = (node, "can raise")
+                    break
+                work.extend(m for (m, _lab) in cfgm.succ[nid])
+            ob.site(fm, b.ast, "a bootstrapped gateway is registered with the group before anything else in makegateway can fail", ok=bad is None)
+            if bad is not None:
+                ob.violation(fm, bad[0].ast if bad[0].ast is not None else b.ast,
+                             f"after the worker process was started makegateway {bad[1]} (`{unparse(bad[0].ast)[:50] if bad[0].ast is not None else 'exit'}`) before the gateway is "
+                             "registered: on failure Group.terminate() never sees it and the process stays alive", construct="failure point before _register")
